@@ -114,9 +114,9 @@ fn set_limits() {
   // address-space backstop so that a hostile allocation fails fast instead of
   // depending on the machine's memory; core dumps off
   unsafe {
-    // (not under AddressSanitizer, whose shadow memory needs the whole address space; there
+    // (not under AddressSanitizer / ThreadSanitizer, whose shadow memory needs the whole address space; there
     // max_allocation_size_mb bounds single requests instead)
-    if std::env::var("ASAN_OPTIONS").is_err() {
+    if std::env::var("ASAN_OPTIONS").is_err() && std::env::var("TSAN_OPTIONS").is_err() {
       let lim = libc::rlimit { rlim_cur: 12 << 30, rlim_max: 12 << 30 };
       libc::setrlimit(libc::RLIMIT_AS, &lim);
     }
